@@ -156,6 +156,22 @@ def scenarios():
                                  "type_url": a_.type_url, "generated_full_name": tgt.DESCRIPTOR.full_name})
     except Exception as e:      # noqa
         failures.append({"case": "schema", "what": "sub-package LRO result type scenario failed", "error": repr(e)[:300]})
+    # a service whose only Operation-returning rpc is NOT annotated (the raw Operation is returned): its transports still name operations_pb2
+    n += 1
+    try:
+        import ast as _ast2
+        from props.C01_native import undefined_names as _und
+        rawf = G.new_file("acme/raw/v1/raw.proto", "acme.raw.v1")
+        G.add_message(rawf, "Req", [G.F("name", 1, G.T.TYPE_STRING)])
+        G.add_method(G.add_service(rawf, "Raw"), "Start", ".acme.raw.v1.Req", ".google.longrunning.Operation", http=("post", "/v1/{name=r/*}:start"), body="*")
+        _, rres = G.generate([rawf], "autogen-snippets=false,transport=grpc+rest")
+        for f_ in rres.file:
+            if f_.name.endswith(".py") and "/services/" in f_.name:
+                und = _und(_ast2.parse(f_.content))
+                if und:
+                    failures.append({"case": "schema", "what": "un-annotated Operation rpc only: names used but bound nowhere", "file": f_.name, "names": und[:5]})
+    except Exception as e:      # noqa
+        failures.append({"case": "schema", "what": "a service whose only Operation rpc is un-annotated cannot be generated", "error": repr(e)[:300]})
     # the API's own operation.proto (holding the result / metadata messages) next to api-core's `operation` module: the future is still built through
     # the wrapper module, i.e. no emitted service module binds one name to two imports or uses an unbound qualifier
     opf = G.new_file("acme/zoo/v1/operation.proto", "acme.zoo.v1")
